@@ -23,7 +23,7 @@ from pyvc import report
 from pyvc.util import real_module
 
 PROP = 'C18'
-JS_SRC = '/repo/js/src'
+JS_SRC = os.path.join(os.environ.get('ATHLIB_TREE', '/repo'), 'js/src')
 
 DRIVER = r'''
 const path = require('path');
